@@ -1,58 +1,5 @@
-(* C16/Proofs2.v -- the refresh: loop invariant and post-condition. *)
+(* C16/Proofs2.v -- the refresh: loop invariant of the first loop. *)
 From GocqlV Require Import Lib.Base C16.ZMap C16.Model C16.Spec C16.Proofs1.
-
-(* no two hosts of the ring share a node-to-node address *)
-Definition addr_inj (r : ring) : Prop :=
-  forall id1 h1 id2 h2, mget id1 (hosts r) = Some h1 -> mget id2 (hosts r) = Some h2 ->
-                        n2n_key h1 = n2n_key h2 -> id1 = id2.
-
-Lemma addr_inj_empty : addr_inj empty_ring.
-Proof. intros id1 h1 id2 h2 H. discriminate. Qed.
-
-Lemma inj_remove_ok r id : addr_inj r -> remove_ok r id.
-Proof. intros Hinj h Hh id2 h2 Hh2 Hne Hk. apply Hne. eapply Hinj; eauto. Qed.
-
-(* with the invariant and injectivity the address index is exact *)
-Lemma inj_exact r id h : ring_inv r -> addr_inj r -> mget id (hosts r) = Some h -> mget (n2n_key h) (ip2id r) = Some id.
-Proof.
-  intros Hinv Hinj Hh. destruct (mget (n2n_key h) (ip2id r)) as [id'|] eqn:E.
-  - destruct (inv_sound _ Hinv _ _ E) as [h' [Hh' Hk]]. f_equal. eapply Hinj; eauto.
-  - exfalso. apply (inv_complete _ Hinv _ _ Hh). exact E.
-Qed.
-
-Lemma addr_inj_update r id e e' :
-  addr_inj r -> mget id (hosts r) = Some e -> n2n_key e' = n2n_key e ->
-  addr_inj (mkRing (mset id e' (hosts r)) (ip2id r) (hlist r)).
-Proof.
-  intros Hinj He Hk id1 h1 id2 h2. simpl. rewrite !mget_mset.
-  destruct (id1 =? id) eqn:E1, (id2 =? id) eqn:E2; intros H1 H2 Hkk.
-  - lia.
-  - injection H1 as <-. apply Z.eqb_eq in E1. subst id1. eapply Hinj; eauto. congruence.
-  - injection H2 as <-. apply Z.eqb_eq in E2. subst id2. eapply Hinj; eauto. congruence.
-  - eapply Hinj; eauto.
-Qed.
-
-Lemma addr_inj_remove r id : addr_inj r -> addr_inj (fst (remove_host_ring r id)).
-Proof.
-  intros Hinj. unfold remove_host_ring. destruct (mget id (hosts r)) as [h|]; simpl; [|exact Hinj].
-  intros id1 h1 id2 h2. simpl. rewrite !mget_mdel.
-  destruct (id1 =? id), (id2 =? id); try discriminate. apply Hinj.
-Qed.
-
-(* adding a host whose address no host of the ring has *)
-Lemma addr_inj_add r h r' e :
-  addr_inj r -> (forall id x, mget id (hosts r) = Some x -> n2n_key x <> n2n_key h) ->
-  add_if_missing r h = Some (r', e, false) -> addr_inj r'.
-Proof.
-  intros Hinj Hfree H. unfold add_if_missing in H. destruct (invalid_connect_addr h); [discriminate|].
-  destruct (mget (h_id h) (hosts r)) eqn:E; [discriminate|]. injection H as <- <-.
-  intros id1 h1 id2 h2. simpl. rewrite !mget_mset.
-  destruct (id1 =? h_id h) eqn:E1, (id2 =? h_id h) eqn:E2; intros H1 H2 Hk.
-  - lia.
-  - injection H1 as <-. exfalso. apply (Hfree id2 h2 H2). congruence.
-  - injection H2 as <-. exfalso. apply (Hfree id1 h1 H1). congruence.
-  - eapply Hinj; eauto.
-Qed.
 
 Lemma add_if_missing_new r h :
   invalid_connect_addr h = false -> mget (h_id h) (hosts r) = None ->
@@ -74,15 +21,17 @@ Qed.
 Lemma In_pool_del p id x : In x (pool_del p id) <-> In x p /\ x <> id.
 Proof. unfold pool_del. rewrite filter_In. split; intros [H1 H2]; split; auto; lia. Qed.
 
-(* ---------------------------------------------------------------- the conditions on a report *)
-(* the accepted hosts of the report can be connected to, carry distinct ids, and no two different nodes
-   -- reported now or known before -- have the same node-to-node address *)
-Record report_ok (c : cfg) (r0 : ring) (report : list hostinfo) : Prop := mk_report_ok {
-  ro_valid : forall h, In h (accepted c report) -> invalid_connect_addr h = false;
-  ro_nodup : NoDup (reported_ids c report);
-  ro_old : forall h id e, In h (accepted c report) -> mget id (hosts r0) = Some e -> n2n_key e = n2n_key h -> id = h_id h;
-  ro_new : forall h1 h2, In h1 (accepted c report) -> In h2 (accepted c report) -> n2n_key h1 = n2n_key h2 -> h_id h1 = h_id h2
-}.
+Lemma remove_host_ring_hosts r id : hosts (fst (remove_host_ring r id)) = mdel id (hosts r).
+Proof.
+  unfold remove_host_ring. destruct (mget id (hosts r)) eqn:E; simpl; [reflexivity|].
+  symmetry. apply mdel_absent. exact E.
+Qed.
+
+(* ---------------------------------------------------------------- the condition on a report *)
+(* the accepted hosts of the report can be connected to (what hostInfoFromMap guarantees for every host it
+   returns: see host_from_row_valid in Proofs3.v) *)
+Definition report_ok (c : cfg) (report : list hostinfo) : Prop :=
+  forall h, In h (accepted c report) -> invalid_connect_addr h = false.
 
 (* the refresh's "no host IP change" test *)
 Definition same_addr (h e : hostinfo) : bool := ip_eqb (h_conn h) (h_conn e) && ip_eqb (n2n h) (n2n e).
@@ -99,104 +48,89 @@ Definition refreshed (r0 : ring) (h : hostinfo) : hostinfo :=
 Definition fresh_record (r0 : ring) (h : hostinfo) : Prop :=
   match mget (h_id h) (hosts r0) with Some e => same_addr h e = false | None => True end.
 
-(* state of the loop: [done] are the accepted hosts processed so far *)
-Record loop_inv (r0 : ring) (p0 : list Z) (s : sess) (prev : zmap hostinfo) (done : list hostinfo) : Prop := mk_loop_inv {
+(* state of the loop: [done] are the reported hosts handled so far (first report of each id), [seen] their ids *)
+Record loop_inv (r0 : ring) (p0 : list Z) (s : sess) (prev : zmap hostinfo) (seen : list Z) (done : list hostinfo) : Prop := mk_loop_inv {
   li_ring : ring_inv (s_ring s);
-  li_inj : addr_inj (s_ring s);
   li_prev_ring : forall id e, mget id prev = Some e -> mget id (hosts (s_ring s)) = Some e;
   li_prev_old : forall id e, mget id prev = Some e -> mget id (hosts r0) = Some e;
   li_prev_nodup : NoDup (mkeys prev);
-  li_prov : forall id x, mget id (hosts (s_ring s)) = Some x ->
-            mget id prev = Some x \/ (mget id prev = None /\ exists h, In h done /\ h_id h = id /\ n2n_key h = n2n_key x);
-  li_done : forall h, In h done -> mget (h_id h) (hosts (s_ring s)) <> None;
+  li_seen : forall id, In id seen <-> exists h, In h done /\ h_id h = id;
+  li_prov : forall id x, mget id (hosts (s_ring s)) = Some x -> mget id prev = Some x \/ (mget id prev = None /\ In id seen);
   li_pool : forall id, In id (s_pool s) -> mget id (hosts (s_ring s)) <> None;
   li_done_pool : forall h, In h done -> fresh_record r0 h -> In (h_id h) (s_pool s);
   li_log : forall h, In h done -> fresh_record r0 h -> In (PAdd (h_id h)) (s_log s);
-  li_done_notprev : forall h, In h done -> mget (h_id h) prev = None;
-  li_old_cover : forall id e, mget id (hosts r0) = Some e -> mget id prev = Some e \/ exists h, In h done /\ h_id h = id;
+  li_seen_notprev : forall id, In id seen -> mget id prev = None;
+  li_old_cover : forall id e, mget id (hosts r0) = Some e -> mget id prev = Some e \/ In id seen;
   li_content : forall h, In h done -> mget (h_id h) (hosts (s_ring s)) = Some (refreshed r0 h);
   li_pool_mono : forall id, In id p0 -> In id (s_pool s)
 }.
 
-(* what is known about a finished loop *)
 Definition loop_post (c : cfg) (r0 : ring) (p0 : list Z) (report : list hostinfo) (out : sess * zmap hostinfo * rres) : Prop :=
-  let '(s', prev', res) := out in res = ROk /\ loop_inv r0 p0 s' prev' (accepted c report).
+  let '(s', prev', res) := out in res = ROk /\ exists seen', loop_inv r0 p0 s' prev' seen' (effective c report).
 
-Lemma filter_app_one {A} (f : A -> bool) l x : filter f (l ++ [x]) = filter f l ++ (if f x then [x] else []).
-Proof. rewrite filter_app. reflexivity. Qed.
-
-(* one accepted host: a free address in the current ring, except for the host's own id *)
-Lemma free_address c r0 p0 report s prev done h :
-  report_ok c r0 report -> loop_inv r0 p0 s prev done -> (forall h', In h' done -> In h' (accepted c report)) ->
-  In h (accepted c report) ->
-  forall id x, mget id (hosts (s_ring s)) = Some x -> n2n_key x = n2n_key h -> id = h_id h.
+Lemma seen_add seen done h :
+  (forall id, In id seen <-> exists h', In h' done /\ h_id h' = id) ->
+  forall id, In id (h_id h :: seen) <-> exists h', In h' (done ++ [h]) /\ h_id h' = id.
 Proof.
-  intros Hok Hli Hsub Hin id x Hx Hk.
-  destruct (li_prov _ _ _ _ _ Hli id x Hx) as [Hp | [_ [h' [Hd [Hid' Hk']]]]].
-  - eapply (ro_old _ _ _ Hok); eauto. eapply li_prev_old; eauto.
-  - rewrite <- Hid'. eapply (ro_new _ _ _ Hok); eauto. congruence.
+  intros H id. simpl. rewrite H. split.
+  - intros [<-|[h' [H1 H2]]]; [exists h; split; [apply in_or_app; right; left; reflexivity | reflexivity]|].
+    exists h'. split; [apply in_or_app; left; exact H1 | exact H2].
+  - intros [h' [H1 H2]]. apply in_app_or in H1. destruct H1 as [H1|[<-|[]]]; [right; exists h'; auto | left; exact H2].
 Qed.
 
 Lemma refresh_loop_ok c r0 p0 report :
-  report_ok c r0 report ->
-  forall todo done s prev,
-    accepted c report = done ++ accepted c todo ->
-    loop_inv r0 p0 s prev done ->
-    loop_post c r0 p0 report (refresh_loop c s prev todo).
+  report_ok c report ->
+  forall todo done seen s prev,
+    effective c report = done ++ first_by_id seen (accepted c todo) ->
+    (forall h, In h (accepted c todo) -> In h (accepted c report)) ->
+    loop_inv r0 p0 s prev seen done ->
+    loop_post c r0 p0 report (refresh_loop c s prev seen todo).
 Proof.
-  intros Hok. induction todo as [|h tl IH]; intros done s prev Hsplit Hli.
-  - simpl. split; [reflexivity|]. simpl in Hsplit. rewrite app_nil_r in Hsplit. rewrite Hsplit. exact Hli.
-  - simpl. unfold accepted in Hsplit. simpl in Hsplit. fold (accepted c tl) in Hsplit. fold (accepted c report) in Hsplit.
+  intros Hok. induction todo as [|h tl IH]; intros done seen s prev Hsplit Hsub Hli.
+  - simpl. split; [reflexivity|]. exists seen. simpl in Hsplit. rewrite app_nil_r in Hsplit. rewrite Hsplit. exact Hli.
+  - simpl. unfold accepted in Hsplit, Hsub. simpl in Hsplit, Hsub. fold (accepted c tl) in Hsplit, Hsub. fold (accepted c report) in Hsub.
     destruct (accept c h) eqn:Hacc; simpl; [|apply (IH done); assumption].
-    assert (Hsub : forall h', In h' done -> In h' (accepted c report)).
-    { intros h' Hh'. rewrite Hsplit. apply in_or_app. left. exact Hh'. }
-    assert (Hin : In h (accepted c report)).
-    { rewrite Hsplit. apply in_or_app. right. left. reflexivity. }
-    assert (Hvalid : invalid_connect_addr h = false) by (apply (ro_valid _ _ _ Hok); exact Hin).
+    simpl in Hsplit.
+    destruct (zmem (h_id h) seen) eqn:Hseen.
+    { apply (IH done); [exact Hsplit | intros h' Hh'; apply Hsub; right; exact Hh' | exact Hli]. }
+    assert (Hvalid : invalid_connect_addr h = false) by (apply Hok; apply Hsub; left; reflexivity).
+    assert (Hsub' : forall h', In h' (accepted c tl) -> In h' (accepted c report)) by (intros h' Hh'; apply Hsub; right; exact Hh').
+    assert (Hsplit' : effective c report = (done ++ [h]) ++ first_by_id (h_id h :: seen) (accepted c tl)) by (rewrite <- app_assoc; exact Hsplit).
+    apply zmem_false in Hseen.
+    destruct Hli as [Hring Hpr Hpo Hpnd Hsn Hprov Hpool Hdpool Hlog Hsnp Hcover Hcontent Hmono].
     assert (Hfresh : forall h', In h' done -> h_id h' <> h_id h).
-    { intros h' Hh' Heq. pose proof (ro_nodup _ _ _ Hok) as Hnd. unfold reported_ids in Hnd. rewrite Hsplit in Hnd.
-      rewrite map_app in Hnd. simpl in Hnd. apply NoDup_remove_2 in Hnd. apply Hnd. apply in_or_app. left.
-      rewrite <- Heq. apply in_map. exact Hh'. }
-    assert (Hsplit' : accepted c report = (done ++ [h]) ++ accepted c tl) by (rewrite <- app_assoc; exact Hsplit).
-    pose proof (free_address _ _ _ _ _ _ _ _ Hok Hli Hsub Hin) as Hfree.
-    destruct Hli as [Hring Hinj Hpr Hpo Hpnd Hprov Hdone Hpool Hdpool Hlog Hdnp Hcover Hcontent Hmono].
+    { intros h' Hh' Heq. apply Hseen. apply Hsn. exists h'. auto. }
+    pose proof (seen_add seen done h Hsn) as Hsn'.
     destruct (mget (h_id h) (hosts (s_ring s))) as [host|] eqn:Eh.
     + (* the id is known *)
       rewrite (add_if_missing_old _ _ _ Hvalid Eh).
-      destruct (Hprov _ _ Eh) as [Hp | [_ [h' [Hd [Hid' _]]]]]; [|exfalso; eapply Hfresh; eauto].
+      destruct (Hprov _ _ Eh) as [Hp | [_ Hin]]; [|contradiction].
       rewrite Hp.
       assert (Hhid : h_id host = h_id h) by (apply (inv_id _ Hring _ _ Eh)).
       fold (same_addr h host). destruct (same_addr h host) eqn:Esame.
       * (* same addresses: update in place *)
         pose proof Esame as Esame'. unfold same_addr in Esame'. apply andb_true_iff in Esame'. destruct Esame' as [_ En].
         pose proof (update_keeps_key _ _ En) as Hkey.
-        apply (IH (done ++ [h])); [exact Hsplit'|].
-        assert (Hkh : n2n_key h = n2n_key host) by (unfold n2n_key; apply ip_eqb_eq in En; rewrite En; reflexivity).
+        apply (IH (done ++ [h])); [exact Hsplit' | exact Hsub' |].
         constructor; simpl.
         -- apply update_in_place_inv with (e := host); auto. rewrite update_id; congruence.
-        -- eapply addr_inj_update; eauto.
         -- intros id e. rewrite mget_mdel. destruct (id =? h_id h) eqn:E1; [discriminate|]. intros He.
            rewrite mget_mset_other by lia. apply Hpr. exact He.
         -- intros id e. rewrite mget_mdel. destruct (id =? h_id h); [discriminate|]. apply Hpo.
         -- apply NoDup_mkeys_mdel. exact Hpnd.
+        -- exact Hsn'.
         -- intros id x. rewrite mget_mset, mget_mdel. destruct (id =? h_id h) eqn:E1.
-           ++ intros Hx. injection Hx as <-. right. split; [reflexivity|]. exists h. split; [apply in_or_app; right; left; reflexivity|].
-              apply Z.eqb_eq in E1. split; [congruence | congruence].
-           ++ intros Hx. destruct (Hprov _ _ Hx) as [Hq | [Hq [h' [Hd [Hid' Hk']]]]]; [left; exact Hq|].
-              right. split; [exact Hq|]. exists h'. split; [apply in_or_app; left; exact Hd | auto].
-        -- intros h' Hh'. rewrite mget_mset. destruct (h_id h' =? h_id h) eqn:E1; [discriminate|].
-           apply in_app_or in Hh'. destruct Hh' as [Hh'|[<-|[]]]; [apply Hdone; exact Hh' | lia].
+           ++ intros _. right. split; [reflexivity|]. left. lia.
+           ++ intros Hx. destruct (Hprov _ _ Hx) as [Hq | [Hq Hin]]; [left; exact Hq | right; split; [exact Hq | right; exact Hin]].
         -- intros id Hid. rewrite mget_mset. destruct (id =? h_id h); [discriminate | apply Hpool; exact Hid].
         -- intros h' Hh' Hn. apply in_app_or in Hh'. destruct Hh' as [Hh'|[<-|[]]]; [apply Hdpool; assumption|].
            exfalso. unfold fresh_record in Hn. rewrite (Hpo _ _ Hp) in Hn. congruence.
         -- intros h' Hh' Hn. apply in_app_or in Hh'. destruct Hh' as [Hh'|[<-|[]]]; [apply Hlog; assumption|].
            exfalso. unfold fresh_record in Hn. rewrite (Hpo _ _ Hp) in Hn. congruence.
-        -- intros h' Hh'. rewrite mget_mdel. destruct (h_id h' =? h_id h) eqn:E1; [reflexivity|].
-           apply in_app_or in Hh'. destruct Hh' as [Hh'|[<-|[]]]; [apply Hdnp; exact Hh' | lia].
-        -- intros id e He. rewrite mget_mdel. destruct (Hcover _ _ He) as [Hq | [h' [Hd Hid']]].
-           ++ destruct (id =? h_id h) eqn:E1; [|left; exact Hq]. right. exists h. split; [apply in_or_app; right; left; reflexivity|].
-              apply Z.eqb_eq in E1. congruence.
-           ++ right. exists h'. split; [apply in_or_app; left; exact Hd | exact Hid'].
+        -- intros id [<-|Hid]; rewrite mget_mdel; [rewrite Z.eqb_refl; reflexivity|].
+           destruct (id =? h_id h); [reflexivity | apply Hsnp; exact Hid].
+        -- intros id e He. rewrite mget_mdel. destruct (Hcover _ _ He) as [Hq | Hq]; [|right; right; exact Hq].
+           destruct (id =? h_id h) eqn:E1; [right; left; lia | left; exact Hq].
         -- intros h' Hh'. rewrite mget_mset. destruct (h_id h' =? h_id h) eqn:E1.
            ++ apply in_app_or in Hh'. destruct Hh' as [Hh'|[<-|[]]]; [exfalso; apply (Hfresh _ Hh'); lia|].
               unfold refreshed. rewrite (Hpo _ _ Hp), Esame. reflexivity.
@@ -205,42 +139,33 @@ Proof.
       * (* address changed: remove the old record, add the new one *)
         unfold remove_host. rewrite Hhid.
         set (r1 := fst (remove_host_ring (s_ring s) (h_id h))).
-        assert (Hr1 : ring_inv r1) by (apply remove_host_ring_inv; [exact Hring | apply inj_remove_ok; exact Hinj]).
-        assert (Hinj1 : addr_inj r1) by (apply addr_inj_remove; exact Hinj).
+        assert (Hr1 : ring_inv r1) by (apply remove_host_ring_inv; exact Hring).
         assert (Hget1 : forall id, mget id (hosts r1) = if id =? h_id h then None else mget id (hosts (s_ring s))).
-        { intros id. unfold r1, remove_host_ring. rewrite Eh. simpl. apply mget_mdel. }
+        { intros id. unfold r1. rewrite remove_host_ring_hosts. apply mget_mdel. }
         assert (Hnone : mget (h_id h) (hosts r1) = None) by (rewrite Hget1, Z.eqb_refl; reflexivity).
         simpl. rewrite (add_if_missing_new _ _ Hvalid Hnone).
-        apply (IH (done ++ [h])); [exact Hsplit'|].
+        apply (IH (done ++ [h])); [exact Hsplit' | exact Hsub' |].
         pose proof (add_if_missing_new _ _ Hvalid Hnone) as Hadd.
         constructor; simpl.
         -- eapply add_if_missing_inv; eauto.
-        -- eapply addr_inj_add; [exact Hinj1 | | exact Hadd].
-           intros id x. rewrite Hget1. destruct (id =? h_id h) eqn:E1; [discriminate|]. intros Hx Hk.
-           pose proof (Hfree _ _ Hx Hk). lia.
         -- intros id e. rewrite mget_mdel. destruct (id =? h_id h) eqn:E1; [discriminate|]. intros He.
            rewrite mget_mset_other by lia. rewrite Hget1, E1. apply Hpr. exact He.
         -- intros id e. rewrite mget_mdel. destruct (id =? h_id h); [discriminate|]. apply Hpo.
         -- apply NoDup_mkeys_mdel. exact Hpnd.
+        -- exact Hsn'.
         -- intros id x. rewrite mget_mset, mget_mdel. destruct (id =? h_id h) eqn:E1.
-           ++ intros Hx. injection Hx as <-. right. split; [reflexivity|]. exists h. split; [apply in_or_app; right; left; reflexivity|].
-              apply Z.eqb_eq in E1. split; congruence.
-           ++ rewrite Hget1, E1. intros Hx. destruct (Hprov _ _ Hx) as [Hq | [Hq [h' [Hd [Hid' Hk']]]]]; [left; exact Hq|].
-              right. split; [exact Hq|]. exists h'. split; [apply in_or_app; left; exact Hd | auto].
-        -- intros h' Hh'. rewrite mget_mset. destruct (h_id h' =? h_id h) eqn:E1; [discriminate|]. rewrite Hget1, E1.
-           apply in_app_or in Hh'. destruct Hh' as [Hh'|[<-|[]]]; [apply Hdone; exact Hh' | lia].
+           ++ intros _. right. split; [reflexivity|]. left. lia.
+           ++ rewrite Hget1, E1. intros Hx. destruct (Hprov _ _ Hx) as [Hq | [Hq Hin]]; [left; exact Hq | right; split; [exact Hq | right; exact Hin]].
         -- intros id. rewrite In_pool_add, In_pool_del. rewrite mget_mset. destruct (id =? h_id h) eqn:E1; [discriminate|].
            rewrite Hget1, E1. intros [[Hid _]|Hid]; [apply Hpool; exact Hid | lia].
         -- intros h' Hh' Hn. rewrite In_pool_add, In_pool_del. apply in_app_or in Hh'. destruct Hh' as [Hh'|[<-|[]]]; [|right; reflexivity].
            left. split; [apply Hdpool; assumption | apply Hfresh; exact Hh'].
         -- intros h' Hh' Hn. apply in_app_or in Hh'. apply in_or_app. destruct Hh' as [Hh'|[<-|[]]]; [|right; left; reflexivity].
            left. apply in_or_app. left. apply Hlog; assumption.
-        -- intros h' Hh'. rewrite mget_mdel. destruct (h_id h' =? h_id h) eqn:E1; [reflexivity|].
-           apply in_app_or in Hh'. destruct Hh' as [Hh'|[<-|[]]]; [apply Hdnp; exact Hh' | lia].
-        -- intros id e He. rewrite mget_mdel. destruct (Hcover _ _ He) as [Hq | [h' [Hd Hid']]].
-           ++ destruct (id =? h_id h) eqn:E1; [|left; exact Hq]. right. exists h. split; [apply in_or_app; right; left; reflexivity|].
-              apply Z.eqb_eq in E1. congruence.
-           ++ right. exists h'. split; [apply in_or_app; left; exact Hd | exact Hid'].
+        -- intros id [<-|Hid]; rewrite mget_mdel; [rewrite Z.eqb_refl; reflexivity|].
+           destruct (id =? h_id h); [reflexivity | apply Hsnp; exact Hid].
+        -- intros id e He. rewrite mget_mdel. destruct (Hcover _ _ He) as [Hq | Hq]; [|right; right; exact Hq].
+           destruct (id =? h_id h) eqn:E1; [right; left; lia | left; exact Hq].
         -- intros h' Hh'. rewrite mget_mset. destruct (h_id h' =? h_id h) eqn:E1.
            ++ apply in_app_or in Hh'. destruct Hh' as [Hh'|[<-|[]]]; [exfalso; apply (Hfresh _ Hh'); lia|].
               unfold refreshed. rewrite (Hpo _ _ Hp), Esame. reflexivity.
@@ -249,40 +174,31 @@ Proof.
     + (* a new id *)
       rewrite (add_if_missing_new _ _ Hvalid Eh).
       pose proof (add_if_missing_new _ _ Hvalid Eh) as Hadd.
-      assert (Hpn : mget (h_id h) prev = None).
-      { destruct (mget (h_id h) prev) as [e|] eqn:E; [|reflexivity]. rewrite (Hpr _ _ E) in Eh. discriminate. }
-      apply (IH (done ++ [h])); [exact Hsplit'|].
+      apply (IH (done ++ [h])); [exact Hsplit' | exact Hsub' |].
       constructor; simpl.
       * eapply add_if_missing_inv; eauto.
-      * eapply addr_inj_add; [exact Hinj | | exact Hadd].
-        intros id x Hx Hk. pose proof (Hfree _ _ Hx Hk). subst id. congruence.
       * intros id e. rewrite mget_mdel. destruct (id =? h_id h) eqn:E1; [discriminate|]. intros He.
         rewrite mget_mset_other by lia. apply Hpr. exact He.
       * intros id e. rewrite mget_mdel. destruct (id =? h_id h); [discriminate|]. apply Hpo.
       * apply NoDup_mkeys_mdel. exact Hpnd.
+      * exact Hsn'.
       * intros id x. rewrite mget_mset, mget_mdel. destruct (id =? h_id h) eqn:E1.
-        -- intros Hx. injection Hx as <-. right. split; [reflexivity|]. exists h. split; [apply in_or_app; right; left; reflexivity|].
-           apply Z.eqb_eq in E1. split; congruence.
-        -- intros Hx. destruct (Hprov _ _ Hx) as [Hq | [Hq [h' [Hd [Hid' Hk']]]]]; [left; exact Hq|].
-           right. split; [exact Hq|]. exists h'. split; [apply in_or_app; left; exact Hd | auto].
-      * intros h' Hh'. rewrite mget_mset. destruct (h_id h' =? h_id h) eqn:E1; [discriminate|].
-        apply in_app_or in Hh'. destruct Hh' as [Hh'|[<-|[]]]; [apply Hdone; exact Hh' | lia].
+        -- intros _. right. split; [reflexivity|]. left. lia.
+        -- intros Hx. destruct (Hprov _ _ Hx) as [Hq | [Hq Hin]]; [left; exact Hq | right; split; [exact Hq | right; exact Hin]].
       * intros id. rewrite In_pool_add. rewrite mget_mset. destruct (id =? h_id h) eqn:E1; [discriminate|].
         intros [Hid|Hid]; [apply Hpool; exact Hid | lia].
       * intros h' Hh' Hn. rewrite In_pool_add. apply in_app_or in Hh'. destruct Hh' as [Hh'|[<-|[]]]; [|right; reflexivity].
         left. apply Hdpool; assumption.
       * intros h' Hh' Hn. apply in_app_or in Hh'. apply in_or_app. destruct Hh' as [Hh'|[<-|[]]]; [|right; left; reflexivity].
         left. apply Hlog; assumption.
-      * intros h' Hh'. rewrite mget_mdel. destruct (h_id h' =? h_id h) eqn:E1; [reflexivity|].
-        apply in_app_or in Hh'. destruct Hh' as [Hh'|[<-|[]]]; [apply Hdnp; exact Hh' | lia].
-      * intros id e He. rewrite mget_mdel. destruct (Hcover _ _ He) as [Hq | [h' [Hd Hid']]].
-        -- destruct (id =? h_id h) eqn:E1; [|left; exact Hq]. right. exists h. split; [apply in_or_app; right; left; reflexivity|].
-           apply Z.eqb_eq in E1. congruence.
-        -- right. exists h'. split; [apply in_or_app; left; exact Hd | exact Hid'].
+      * intros id [<-|Hid]; rewrite mget_mdel; [rewrite Z.eqb_refl; reflexivity|].
+        destruct (id =? h_id h); [reflexivity | apply Hsnp; exact Hid].
+      * intros id e He. rewrite mget_mdel. destruct (Hcover _ _ He) as [Hq | Hq]; [|right; right; exact Hq].
+        destruct (id =? h_id h) eqn:E1; [right; left; lia | left; exact Hq].
       * intros h' Hh'. rewrite mget_mset. destruct (h_id h' =? h_id h) eqn:E1.
         -- apply in_app_or in Hh'. destruct Hh' as [Hh'|[<-|[]]]; [exfalso; apply (Hfresh _ Hh'); lia|].
            unfold refreshed. destruct (mget (h_id h) (hosts r0)) as [e|] eqn:E0; [|reflexivity]. exfalso.
-           destruct (Hcover _ _ E0) as [Hq | [h' [Hd Hid']]]; [congruence | eapply Hfresh; eauto].
+           destruct (Hcover _ _ E0) as [Hq | Hq]; [rewrite (Hpr _ _ Hq) in Eh; discriminate | contradiction].
         -- apply in_app_or in Hh'. destruct Hh' as [Hh'|[<-|[]]]; [apply Hcontent; exact Hh' | lia].
       * intros id Hid. rewrite In_pool_add. left. apply Hmono. exact Hid.
 Qed.
